@@ -160,7 +160,9 @@ func ExpressionPrecedence(expr ExpressionNode) uint8 {
 		*UntilExpressionNode, *ForInExpressionNode, *NumericForExpressionNode,
 		*TypeExpressionNode, *ClosureLiteralNode, *ConstantDeclarationNode,
 		*DoubleSplatExpressionNode, *SplatExpressionNode, *QuoteExpressionNode,
-		*AwaitExpressionNode:
+		*AwaitExpressionNode, *DeferExpressionNode,
+		*VariableDeclarationNode, *ValueDeclarationNode,
+		*VariablePatternDeclarationNode, *ValuePatternDeclarationNode:
 		return 20
 	case *AssignmentExpressionNode:
 		return 30
@@ -205,7 +207,7 @@ func ExpressionPrecedence(expr ExpressionNode) uint8 {
 		return 160
 	case *AsExpressionNode:
 		return 170
-	case *UnaryExpressionNode:
+	case *UnaryExpressionNode, *BoxOfExpressionNode:
 		return 180
 	case *PostfixExpressionNode:
 		return 200
